@@ -1599,8 +1599,12 @@ class Evolve:
             if re.search(r"\b%s\b" % re.escape(nm_), sib):
                 live_new.add(nm_)
         dead = set()
+        # reflective reads (`getattr(o, "a", d)`, `hasattr`, `vars(o)` / `o.__dict__`) are loads too
+        strs = {x.value for x in ast.walk(self.tree) if isinstance(x, ast.Constant) and isinstance(x.value, str)}
+        if any((isinstance(x, ast.Attribute) and x.attr == "__dict__") or (isinstance(x, ast.Name) and x.id == "vars") for x in ast.walk(self.tree)):
+            return
         for a in stored:
-            if re.search(r"\b%s\b" % re.escape(a), sib):
+            if re.search(r"\b%s\b" % re.escape(a), sib) or a in strs:
                 continue
             ok = True
             for n in ast.walk(self.tree):
